@@ -74,6 +74,9 @@ fn main() {
             let code = if args[1] == "replay" { p.replay(&args[3]) } else { p.replay_bytes(&args[3]) };
             exit(code);
         }
+        "oracle" => {
+            exit(ppverif::oracle_cli::run());
+        }
         "dump" => {
             if args.len() < 5 {
                 usage();
